@@ -257,7 +257,7 @@ impl Check for C13 {
         v
     }
     fn workloads(&self) -> Vec<Workload> {
-        vec![Workload { name: "cancel-twin", quick: 700, thorough: 60_000 }]
+        vec![Workload { name: "cancel-twin", quick: 700, thorough: 3_000_000 }]
     }
     fn min_nontrivial(&self, tier: Tier) -> usize {
         if tier == Tier::Quick { 300 } else { 3000 }
@@ -667,7 +667,7 @@ impl Check for C15 {
         v
     }
     fn workloads(&self) -> Vec<Workload> {
-        vec![Workload { name: "fragment-twin", quick: 900, thorough: 60_000 }, Workload { name: "exhaustive-chunkings", quick: 60, thorough: 1500 }, Workload { name: "stalls-under-keepalive", quick: 400, thorough: 30_000 }]
+        vec![Workload { name: "fragment-twin", quick: 900, thorough: 600_000 }, Workload { name: "exhaustive-chunkings", quick: 60, thorough: 6000 }, Workload { name: "stalls-under-keepalive", quick: 400, thorough: 600_000 }]
     }
     fn min_nontrivial(&self, tier: Tier) -> usize {
         if tier == Tier::Quick { 300 } else { 3000 }
